@@ -2543,6 +2543,7 @@ class DeltaChainIterator(Generic[T]):
         *,
         resolve_ext_ref: ResolveExtRefFn | None = None,
         object_format: "ObjectFormat | None" = None,
+        reject_delta_cycles: bool = False,
     ) -> None:
         """Initialize DeltaChainIterator.
 
@@ -2553,6 +2554,10 @@ class DeltaChainIterator(Generic[T]):
             object_format: Optional object format. Required by subclasses
                 that materialise objects (e.g. PackInflater) when iterating
                 packs in a non-default hash algorithm such as SHA-256.
+            reject_delta_cycles: If True, raise ApplyDeltaError for a delta
+                that resolves to an object of its own delta chain (e.g. a
+                REF_DELTA against X whose result is X). Object stores set
+                this for packs they are asked to accept.
         """
         self._file = file_obj
         self._contents: bytes | mmap.mmap | None = None
@@ -2563,16 +2568,22 @@ class DeltaChainIterator(Generic[T]):
         self._pending_ref: dict[bytes, list[int]] = defaultdict(list)
         self._full_ofs: list[tuple[int, int]] = []
         self._ext_refs: list[RawObjectID] = []
+        self._reject_delta_cycles = reject_delta_cycles
 
     @classmethod
     def for_pack_data(
-        cls, pack_data: PackData, resolve_ext_ref: ResolveExtRefFn | None = None
+        cls,
+        pack_data: PackData,
+        resolve_ext_ref: ResolveExtRefFn | None = None,
+        *,
+        reject_delta_cycles: bool = False,
     ) -> "DeltaChainIterator[T]":
         """Create a DeltaChainIterator from pack data.
 
         Args:
           pack_data: PackData object to iterate
           resolve_ext_ref: Optional function to resolve external refs
+          reject_delta_cycles: See the constructor
 
         Returns:
           DeltaChainIterator instance
@@ -2582,6 +2593,7 @@ class DeltaChainIterator(Generic[T]):
             pack_data.object_format.hash_func,
             resolve_ext_ref=resolve_ext_ref,
             object_format=pack_data.object_format,
+            reject_delta_cycles=reject_delta_cycles,
         )
         walker.set_pack_data(pack_data)
         for unpacked in pack_data.iter_unpacked(include_comp=False):
@@ -2705,7 +2717,9 @@ class DeltaChainIterator(Generic[T]):
             self._ext_refs.append(RawObjectID(base_sha))
             self._pending_ref.pop(base_sha)
             for new_offset in pending:
-                yield from self._follow_chain(new_offset, type_num, chunks)
+                yield from self._follow_chain(
+                    new_offset, type_num, chunks, base_sha=base_sha
+                )
 
         self._ensure_no_pending()
 
@@ -2765,24 +2779,51 @@ class DeltaChainIterator(Generic[T]):
         offset: int,
         obj_type_num: int,
         base_chunks: bytes | list[bytes] | None,
+        base_sha: bytes | None = None,
     ) -> Iterator[T]:
         # Unlike PackData.get_object_at, there is no need to cache offsets as
         # this approach by design inflates each object exactly once.
-        todo = [(offset, obj_type_num, base_chunks)]
+        #
+        # on_chain holds the ids of the objects the current entry is (directly
+        # or indirectly) a delta against, including an external base. A delta
+        # that resolves to one of them - the simplest case is a REF_DELTA
+        # against X whose result is X itself - gives the pack two entries of
+        # that name, one of which needs the name to be resolved: lookups by
+        # name (Pack.get_raw, and through it the object store) can then run in
+        # a circle. No pack writer produces this; with reject_delta_cycles the
+        # pack is refused. A one-item tuple on the stack marks the end of the
+        # deltas based on that id.
+        on_chain: set[bytes] = set() if base_sha is None else {base_sha}
+        todo: list[tuple[Any, ...]] = [(offset, obj_type_num, base_chunks)]
         while todo:
-            (offset, obj_type_num, base_chunks) = todo.pop()
+            item = todo.pop()
+            if len(item) == 1:
+                on_chain.discard(item[0])
+                continue
+            (offset, obj_type_num, base_chunks) = item
             unpacked = self._resolve_object(offset, obj_type_num, base_chunks)
+            sha = unpacked.sha()
+            if self._reject_delta_cycles and sha in on_chain:
+                raise ApplyDeltaError(
+                    f"delta at offset {offset} resolves to {sha_to_hex(sha).decode('ascii')}, "
+                    "an object of its own delta chain"
+                )
             yield self._result(unpacked)
 
             assert unpacked.offset is not None
-            unblocked = chain(
-                self._pending_ofs.pop(unpacked.offset, []),
-                self._pending_ref.pop(unpacked.sha(), []),
+            unblocked = list(
+                chain(
+                    self._pending_ofs.pop(unpacked.offset, []),
+                    self._pending_ref.pop(sha, []),
+                )
             )
-            todo.extend(
-                (new_offset, unpacked.obj_type_num, unpacked.obj_chunks)  # type: ignore
-                for new_offset in unblocked
-            )
+            if unblocked:
+                on_chain.add(sha)
+                todo.append((sha,))
+                todo.extend(
+                    (new_offset, unpacked.obj_type_num, unpacked.obj_chunks)
+                    for new_offset in unblocked
+                )
 
     def __iter__(self) -> Iterator[T]:
         """Iterate over objects in the pack."""
